@@ -1,12 +1,18 @@
 //! clvlib — runtime monitors for coap-lite (see /verif/DESIGN.md).
 
+pub mod accessors;
 pub mod alloc_count;
+#[cfg(feature = "std")]
+pub mod blockval;
 pub mod codec;
 pub mod ctx;
 pub mod glue;
 pub mod panicwatch;
+pub mod optval;
 pub mod refcodec;
+pub mod registry;
 pub mod report;
+pub mod respcorr;
 pub mod rng;
 pub mod vclock;
 
@@ -20,6 +26,12 @@ pub fn dispatch(ctx: &mut ctx::Ctx) -> bool {
         "C02" => codec::run_c02(ctx),
         "C03" => codec::run_c03(ctx),
         "C04" => codec::run_c04(ctx),
+        "C05" => registry::run_c05(ctx),
+        "C06" => optval::run_c06(ctx),
+        "C07" => respcorr::run_c07(ctx),
+        #[cfg(feature = "std")]
+        "C13" => blockval::run_c13(ctx),
+        "C19" => accessors::run_c19(ctx),
         _ => return false,
     }
     true
